@@ -6,7 +6,7 @@ blocks, which Verus erases).  All spans come from the syn-based indexer tools/ww
 """
 import json, os, re, subprocess, hashlib
 
-VERIF = os.path.dirname(os.path.dirname(os.path.dirname(os.path.abspath(__file__))))
+VERIF = os.environ.get("WW_VERIF") or os.path.dirname(os.path.dirname(os.path.dirname(os.path.abspath(__file__))))
 REPO = os.environ.get("WW_REPO", "/repo")
 WWX = os.path.join(VERIF, ".build/wwx/release/wwx")
 
@@ -895,10 +895,18 @@ def apply_maploops(ed, it, closures, src, ann, qual, relpath):
         k = int(k)
         if k >= len(closures):
             raise Inconclusive(f"anchor lost: closure #{k} of {qual} (maploop)")
+        def map_of(c):
+            mp = [m for m in it["mcalls"] if m["name"] == "map" and len(m["args"]) == 1 and m["args"][0] == c["span"]]
+            return mp if (len(mp) == 1 and len(c["params"]) == 1 and c["body_is_block"] and c["body_stmts"]) else None
+        if map_of(closures[k]) is None:
+            # a closure written earlier in the function shifts the ordinals: the annotation moves to the next closure that IS a `.map(|p| {..})` argument
+            later = [j for j in range(k + 1, len(closures)) if map_of(closures[j]) is not None]
+            if not later:
+                raise Inconclusive(f"D2: closure #{k} of {qual} is not the argument of a .map(|p| {{..}}) call")
+            ed.log.append({"file": relpath, "line": _srcline(src, closures[later[0]]["span"][0]), "rule": "D2", "note": f"maploop annotation #{k} of {qual} applied to closure #{later[0]} (closure #{k} is not a .map block closure)"})
+            k = later[0]
         c = closures[k]
-        mp = [m for m in it["mcalls"] if m["name"] == "map" and len(m["args"]) == 1 and m["args"][0] == c["span"]]
-        if len(mp) != 1 or len(c["params"]) != 1 or not c["body_is_block"] or not c["body_stmts"]:
-            raise Inconclusive(f"D2: closure #{k} of {qual} is not the argument of a .map(|p| {{..}}) call")
+        mp = map_of(c)
         mp = mp[0]
         try_tail = False
         if elem_ty and elem_ty.rstrip().endswith(" try"):
@@ -1008,6 +1016,14 @@ def apply_forloops(ed, loops, src, ann, qual):
                 raise Inconclusive(f"D3: enumerate loop #{k} of {qual} without an `(i, x)` pattern")
             xtxt, ptxt = me.group(1).strip(), mp_.group(2).strip()
             enum_bind = f"let {mp_.group(1)}: usize = verif_i{k}; "
+        # D3 on `X.iter()/.into_iter().rev()`: same index loop, the i-th iteration takes the i-th element from the end
+        mrv = re.match(r"^(.*)\.rev\(\)$", xtxt, re.S)
+        idx = f"verif_i{k}"
+        if mrv:
+            xtxt = mrv.group(1).strip()
+            idx = f"(verif_v{k}.len() - 1 - verif_i{k})"
+            if xtxt.endswith(".iter_mut()"):
+                raise Inconclusive(f"D3: reversed mutable iteration (loop #{k} of {qual}) is not modelled")
         m = re.match(r"^(.*)\.iter\(\)$", xtxt, re.S)
         if m:
             xtxt, byref = m.group(1), True
@@ -1016,7 +1032,7 @@ def apply_forloops(ed, loops, src, ann, qual):
         m2 = re.match(r"^(.*)\.into_iter\(\)$", xtxt, re.S)
         if m2:
             xtxt = m2.group(1)
-        bind = f"let {ptxt} = &verif_v{k}[verif_i{k}];" if byref else f"let {ptxt} = verif_elem(&verif_v{k}, verif_i{k});"
+        bind = f"let {ptxt} = &verif_v{k}[{idx}];" if byref else f"let {ptxt} = verif_elem(&verif_v{k}, {idx});"
         b0, b1 = l["body"]
         head = (f"let verif_v{k} = {'&' if byref else ''}{xtxt}; let mut verif_i{k}: usize = 0;\nwhile verif_i{k} < verif_v{k}.len()\n" + inv.rstrip()
                 + f"\n    decreases verif_v{k}.len() - verif_i{k}\n{{ {enum_bind}{bind}\n")
@@ -1027,7 +1043,9 @@ def apply_forloops(ed, loops, src, ann, qual):
             head = (f"let mut verif_i{k}: usize = 0;\nwhile verif_i{k} < {place}.len()\n" + inv.rstrip()
                     + f"\n    decreases {place}.len() - verif_i{k}\n{{ {enum_bind}let {ptxt} = &mut {place}[verif_i{k}];\n")
         ed.add(l["span"][0], b0 + 1, head, "D3", f"`for {ptxt} in {xtxt[:30]}` desugared to an index loop (body copied by span)")
-        ed.add(b1 - 1, b1 - 1, f" verif_i{k} = verif_i{k} + 1; ", None)
+        # (a body whose last statement has no trailing `;` gets one)
+        lead = "" if re.search(rb";\s*$", src[b0:b1 - 1]) else ";"
+        ed.add(b1 - 1, b1 - 1, f"{lead} verif_i{k} = verif_i{k} + 1; ", None)
         body_txt = src[b0:b1].decode()
         for mm in re.finditer(r"\bcontinue\s*;", body_txt):
             # only `continue`s of THIS loop: reject nested loops inside the body
@@ -1046,10 +1064,13 @@ def extract_segment(relpath, qual, ann):
     def norm(x): return re.sub(r"\s+", " ", src[x["span"][0]:x["span"][1]].decode())
     # the block (top-level body or a nested block) that owns the unique statement starting with `from`
     cands = [("top", it["stmts"])] + [("nested", b["stmts"]) for b in it.get("blocks", [])]
-    owners = [(kind, stl) for (kind, stl) in cands if sum(1 for x in stl if norm(x).startswith(ann["seg_from"])) == 1]
-    total = sum(sum(1 for x in stl if norm(x).startswith(ann["seg_from"])) for (_, stl) in cands)
+    # `from_after=`: the segment starts at the statement FOLLOWING the unique statement that starts with the prefix
+    after = ann.get("seg_from_after")
+    seg_from = after or ann["seg_from"]
+    owners = [(kind, stl) for (kind, stl) in cands if sum(1 for x in stl if norm(x).startswith(seg_from)) == 1]
+    total = sum(sum(1 for x in stl if norm(x).startswith(seg_from)) for (_, stl) in cands)
     if not owners or total != 1:
-        raise Inconclusive(f"anchor lost: M4 segment from={ann['seg_from']!r} matches {total} statements of {qual}")
+        raise Inconclusive(f"anchor lost: M4 segment from={seg_from!r} matches {total} statements of {qual}")
     nested_block = owners[0][0] == "nested"
     st = owners[0][1]
     def find_stmt(prefix, what):
@@ -1057,7 +1078,7 @@ def extract_segment(relpath, qual, ann):
         if len(hits) != 1:
             raise Inconclusive(f"anchor lost: M4 segment {what}={prefix!r} matches {len(hits)} statements of the block in {qual}")
         return hits[0]
-    k0 = find_stmt(ann["seg_from"], "from")
+    k0 = find_stmt(seg_from, "from") + (1 if after else 0)
     k1 = find_stmt(ann["seg_to"], "to") if ann.get("seg_to") else len(st)
     if k1 <= k0:
         raise Inconclusive(f"M4 segment of {qual}: empty range")
